@@ -63,3 +63,28 @@ plan("C03", "exploration",
      "restart covers every released signature, at the instant Sign is invoked the live store and (sampled) a fresh process opening the directory already "
      "cover the duty, the directory as copied at the instant a storage call returns already holds what was acknowledged, SyncWrites is on.",
      q, t)
+
+BATCH_RULE = ("one case = one seeded run of 1-3 rounds, each a request of drawn kind and size (1-40 mostly, up to {big} entries over distinct keys of a 520-account wallet) "
+              "with GOMAXPROCS drawn from {{1,2,3,4,5,7,8,16,33,64,128}}; batches of <= 48 entries run under the seeded scheduler so that scatter workers are released in drawn order; "
+              "distinct = distinct (kind, size, GOMAXPROCS, values) tuple; non-trivial = a batch larger than GOMAXPROCS (work is split over several workers) or more than one round. ")
+def batch_layers(runs, budget, scatter_runs):
+    main = dict(runs=runs, budget_s=budget, params="")
+    sc = dict(runs=scatter_runs, budget_s=budget, params="mode=scatter")
+    return [main] * 15 + [sc]
+q, t = tiers(120, 60, 5000, 1200)
+plan("C08", "exploration",
+     BATCH_RULE.format(big="160 (quick) / 512 (thorough)") + "Kinds: attestation batch, multisign, single attestation/proposal/generic with random field values (full uint64 slot/index). "
+     "Oracle: exactly one response per request; every returned signature BLS-verifies under the public key of the account addressed at that position over a signing root "
+     "recomputed by the harness's own SSZ merkleiser (not fastssz); the same monitor runs in every other W1/W2 check.",
+     q, t)
+q, t = tiers(120, 60, 5000, 1200)
+q["layers"] = batch_layers(120, 60, 64)
+t["layers"] = batch_layers(5000, 1200, 64)
+q["require_probes"] = ["twin_comparisons", "scatter_pairs_checked", "probe_batch_larger_than_gomaxprocs"]
+t["require_probes"] = q["require_probes"]
+plan("C09", "exploration",
+     BATCH_RULE.format(big="160 (quick) / 512 (thorough)") + "Twin instances: the batch goes to A, the same entries one at a time to B (same history); verdict vectors must agree position by position "
+     "and agree with the reference model (advancing requests with epochs < 2^63 must be signed, incl. equal consecutive sources, genesis 0/0, values near 2^63-1); the rules "
+     "wrapper counts evaluations per batch index (exactly once). One worker enumerates util.Scatter(n) for every n in [1,600] x GOMAXPROCS in [1,64] (complete table) and checks the "
+     "(offset, entries) pairs partition [0,n).",
+     q, t)
